@@ -328,3 +328,24 @@ void ok_st__md_kdf(uint8_t *key, size_t key_len, const uint8_t *in, size_t in_le
 void bad_kdf_counter__md_mgf(uint8_t *key, size_t key_len, const uint8_t *in, size_t in_len) {
 	st14_kdf(key, key_len, in, in_len, 1);
 }
+
+/* ------------------------------------------------------------------ ERR-SIGN */
+int ok_err_sign__dec(uint8_t *out, size_t *out_len, uint8_t *in, size_t in_len) {
+	int pad_len = ok_pad_decrypt(NULL, in, (int)in_len, out);
+	*out_len = 0;
+	if (pad_len <= 0) {
+		return RLC_ERR;
+	}
+	*out_len = pad_len;
+	return RLC_OK;
+}
+
+int bad_err_sign__dec(uint8_t *out, size_t *out_len, uint8_t *in, size_t in_len) {
+	size_t pad_len = ok_pad_decrypt(NULL, in, (int)in_len, out);
+	*out_len = 0;
+	if (pad_len <= 0) {
+		return RLC_ERR;
+	}
+	*out_len = pad_len;
+	return RLC_OK;
+}
